@@ -275,32 +275,35 @@ func (d *Device) handleABSEvent(ie *input.InputEvent) {
 			d.AnalogNoteOff(identifierNeg, ie)
 		}
 	case config.AnalogActionSim:
-		if d.checkDoubleActions() {
-			return
-		}
-
 		if !canBeNegative {
 			value = value*2 - 1.0
 		}
 
+		// a held pair of actions blocks new presses only, releases always have to be registered
 		switch {
 		case value <= -0.5:
-			d.invokeActionPress(analog.ActionNeg)
-			d.actionTracker[analog.ActionNeg] = true
-
 			d.invokeActionRelease(analog.Action)
 			delete(d.actionTracker, analog.Action)
+
+			if d.checkDoubleActions() {
+				return
+			}
+			d.invokeActionPress(analog.ActionNeg)
+			d.actionTracker[analog.ActionNeg] = true
 		case value > -0.49 && value < 0.49:
 			d.invokeActionRelease(analog.ActionNeg)
 			d.invokeActionRelease(analog.Action)
 			delete(d.actionTracker, analog.ActionNeg)
 			delete(d.actionTracker, analog.Action)
 		case value >= 0.5:
+			d.invokeActionRelease(analog.ActionNeg)
+			delete(d.actionTracker, analog.ActionNeg)
+
+			if d.checkDoubleActions() {
+				return
+			}
 			d.invokeActionPress(analog.Action)
 			d.actionTracker[analog.Action] = true
-
-			delete(d.actionTracker, analog.ActionNeg)
-			d.invokeActionRelease(analog.ActionNeg)
 		}
 	default:
 		log.Info(fmt.Sprintf("unexpected AnalogID type: %+v", analog.MappingType), d.logFields(
